@@ -327,8 +327,41 @@ func errHandleKinds(t *seqTarget) []*seqHandleKind {
 
 	seen := map[string]bool{}
 
-	for _, c := range ctors {
-		for _, pa := range t.d.paths {
+	callNo := errHandleCalls
+	errHandleCalls++
+
+	mkKind := func(c ctor, pa seqArg, shape string, nilp bool) *seqHandleKind {
+		p := pa.V.(string)
+
+		return &seqHandleKind{
+			Name: fmt.Sprintf("returned-with-error:%s:%s", c.name, shape), NilPtr: nilp,
+			mk: func(in *seqInst) avfs.File {
+				f, err := c.call(in, p)
+				if err == nil || f == nil {
+					notAppl("constructor did not fail")
+				}
+
+				return f
+			},
+			Go: func(*seqInst) []string {
+				return []string{"f, _ := " + fmt.Sprintf(c.gof, pa.Go) + " // returns an error"}
+			},
+		}
+	}
+
+	if errHandleTableSet {
+		// discovered by the watched subprocess (seq_discover.go)
+		for _, e := range errHandleTable {
+			if e.Call == callNo && e.Ctor < len(ctors) && e.Path < len(t.d.paths) {
+				out = append(out, mkKind(ctors[e.Ctor], t.d.paths[e.Path], e.Shape, e.Nil))
+			}
+		}
+
+		return out
+	}
+
+	for ci, c := range ctors {
+		for pi, pa := range t.d.paths {
 			c, pa := c, pa
 			p := pa.V.(string)
 
@@ -336,6 +369,13 @@ func errHandleKinds(t *seqTarget) []*seqHandleKind {
 				f   avfs.File
 				err error
 			)
+
+			dkey := fmt.Sprintf("%d|%d|%d", callNo, ci, pi)
+			if discoverSkip[dkey] {
+				continue
+			}
+
+			discoverNote(dkey, t.Name+"|"+c.name+"|"+fmt.Sprintf(c.gof, pa.Go))
 
 			in := t.newInst()
 			if k, _ := fsx.Guard(func() { f, err = c.call(in, p) }); k != "" || err == nil || f == nil {
@@ -359,20 +399,9 @@ func errHandleKinds(t *seqTarget) []*seqHandleKind {
 
 			seen[key] = true
 
-			out = append(out, &seqHandleKind{
-				Name: fmt.Sprintf("returned-with-error:%s:%s", c.name, shape), NilPtr: nilp,
-				mk: func(in *seqInst) avfs.File {
-					f, err := c.call(in, p)
-					if err == nil || f == nil {
-						notAppl("constructor did not fail")
-					}
+			discoverFound(errHandleEntry{Call: callNo, Ctor: ci, Path: pi, Shape: shape, Nil: nilp, Type: rv.Type().String()})
 
-					return f
-				},
-				Go: func(*seqInst) []string {
-					return []string{"f, _ := " + fmt.Sprintf(c.gof, pa.Go) + " // returns an error"}
-				},
-			})
+			out = append(out, mkKind(c, pa, shape, nilp))
 		}
 	}
 
@@ -459,6 +488,7 @@ func buildSeqPlan(tier string) (pl *seqPlan, err error) {
 	}()
 
 	verifrt.SetSeqRandom(true)
+	loadErrHandleTable()
 
 	seqTier = tier
 	thorough := tier == "thorough"
